@@ -138,7 +138,9 @@ def _work(item):
     import signal
 
     t0 = time.time()
-    limit = int(getattr(part, "unit_timeout", 0) or os.environ.get("VERIF_UNIT_TIMEOUT") or 900)
+    # a hang is a harness error, not a verdict; the thorough tier has work units of many minutes
+    limit = int(getattr(part, "unit_timeout", 0) or os.environ.get("VERIF_UNIT_TIMEOUT")
+                or (900 if getattr(part, "tier", "quick") == "quick" else 7200))
     try:
         signal.signal(signal.SIGALRM, _alarm)
         signal.alarm(limit)
